@@ -118,10 +118,47 @@ def ocol(c):
     return "None" if c is None else "(Some (%d, %d, %d))" % tuple(c)
 
 
-def obs_term(op, res):
+def opk_term(c):
+    op = c["op"]
+    if op == "raw":
+        return "OpRawCsi" if c["more"] == "csi" else "OpRawC"
+    if op == "session":
+        return "(OpSession %s)" % core.coq_list(c["calls"], call_term)
+    return OPK[op]
+
+
+def call_term(call):
+    if call[0] == "nv":
+        return "SNv"
+    return "(SFg %s)" % ("FDefault" if call[1] is None else "(FHex %s)" % b(call[1]))
+
+
+def sres_term(call, r):
+    """one result of a session as a Query.sres (None: not representable -> mismatch)"""
+    if call[0] == "nv":
+        return None if "exc" in r else "(RNv %s %s)" % (obl(r["ok"][0]), obl(r["ok"][1]))
+    if "exc" in r:
+        return "(RFg None)" if r["exc"] == "ValueError" else None
+    vals = [v for v in r["ok"] if v is not None]
+    kinds = {v[0] for v in vals}
+    if not kinds:  # (None, None) looks the same in both representations
+        kinds = {"hex" if call[1] else "rgb"}
+    if kinds == {"rgb"}:
+        return "(RFg (Some (VRgb (%s, %s))))" % tuple(ocol(v and v[1:]) for v in r["ok"])
+    if kinds == {"hex"}:
+        return "(RFg (Some (VHex (%s, %s))))" % tuple(obl(v and v[1:]) for v in r["ok"])
+    return None
+
+
+def obs_term(op, res, calls=None):
     """the observation as a QueryTie.obs; an exception the model has no case for is rendered
     with a constructor that can never compare equal (-> reported as a mismatch)"""
     wrong = "OBool None" if op == "raw" else "ORaw None"
+    if op == "session":
+        if "exc" in res or len(res["ok"]) != len(calls):
+            return wrong
+        terms = [sres_term(c, r) for c, r in zip(calls, res["ok"])]
+        return wrong if any(t is None for t in terms) else "OSession %s" % core.coq_list(terms)
     if "exc" in res:
         if ALLOWED_EXC.get(op) != res["exc"]:
             return wrong
@@ -364,8 +401,24 @@ def gen_recipe(rng, allow_late=True):
     return r
 
 
+FORMS = [["fg", None], ["fg", True], ["fg", False], ["nv"]]
+
+
+def gen_calls(rng):
+    """the calls of one cache epoch: the colour getter in its three argument forms (no
+    positional form exists: `hex` is keyword-only) and the name/version getter, 2-7 calls
+    in varying order with repetitions"""
+    n = rng.randint(2, 7)
+    w = rng.choice([[3, 3, 3, 2], [1, 4, 4, 1], [4, 4, 1, 1], [2, 2, 2, 4]])
+    calls = [copy.deepcopy(rng.choices(FORMS, w)[0]) for _ in range(n)]
+    if rng.random() < 0.5:  # make sure both explicit keyword values meet in most epochs
+        i = rng.randrange(n)
+        calls[i:i] = [["fg", rng.random() < 0.5], ["fg", rng.random() < 0.5]]
+    return calls
+
+
 def gen_pty(rng, op=None):
-    op = op or rng.choices(OPS + ["raw"], [4, 4, 4, 4, 2, 4, 2])[0]
+    op = op or rng.choices(OPS + ["raw", "session"], [4, 4, 4, 4, 2, 4, 2, 6])[0]
     if op == "raw":
         more = rng.choice(["csi", "c"])
         units = [mangle(rng, rng.choice([b"\x1b[?62;c", b"\x1bP>|foot(1.1)\x1b\\", b"abc", b"\x1b]10;rgb:1/2/3\x07"]), True)
@@ -377,22 +430,30 @@ def gen_pty(rng, op=None):
         return {"kind": "pty", "op": "raw", "more": more, "request": list(req), "stream_units": units,
                 "cfg": cfg, "cache": cache, "sp": dict.fromkeys(SLOTS), "recipes": [gen_recipe(rng)]}
     cfg, cache = gen_cfg(rng, op)
-    allow_late = rng.random() < 0.35
-    return {"kind": "pty", "op": op, "cfg": cfg, "cache": cache, "sp": gen_sp(rng, op, safe=True),
-            "recipes": [gen_recipe(rng, allow_late), gen_recipe(rng, allow_late)]}
+    allow_late = rng.random() < (0.15 if op == "session" else 0.35)
+    c = {"kind": "pty", "op": op, "cfg": cfg, "cache": cache, "sp": gen_sp(rng, op, safe=True),
+         "recipes": [gen_recipe(rng, allow_late), gen_recipe(rng, allow_late)]}
+    if op == "session":
+        c["calls"] = gen_calls(rng)
+    return c
 
 
 def gen_fast(rng):
-    op = rng.choices(OPS, [4, 4, 5, 5, 3, 4])[0]
+    op = rng.choices(OPS + ["session"], [4, 4, 5, 5, 3, 4, 6])[0]
     cfg, cache = gen_cfg(rng, op)
     sp = gen_sp(rng, op, safe=False)
     pr = printed(sp)
     r1, r2 = exp_resp1(op, pr), exp_resp2(pr)
+    if op == "session":  # resp1: to the colour query, resp2: to the XTVERSION query
+        r1, r2 = exp_resp1("fgbg", pr), exp_resp1("namever", pr)
     if rng.random() < 0.22:
         r1 = mangle(rng, r1, False) if r1 else bytes(rng.randrange(128) for _ in range(rng.randint(0, 6)))
     if rng.random() < 0.15:
         r2 = mangle(rng, r2, False) if r2 else b"c"
-    return {"kind": "fast", "op": op, "cfg": cfg, "cache": cache, "sp": sp, "resp1": list(r1), "resp2": list(r2)}
+    c = {"kind": "fast", "op": op, "cfg": cfg, "cache": cache, "sp": sp, "resp1": list(r1), "resp2": list(r2)}
+    if op == "session":
+        c["calls"] = gen_calls(rng)
+    return c
 
 
 def gen_x(rng):
@@ -426,15 +487,21 @@ WHOLE = {"mode": "whole", "delays": []}
 UNITS1 = {"mode": "units", "delays": [0, 1]}
 
 
-def pty_case(op, sp, cfg=None, recipes=None, cache=None):
-    return {"kind": "pty", "op": op, "cfg": dict(CFG0, **(cfg or {})), "cache": cache or [0, 0, 0, 0], "sp": sp,
-            "recipes": recipes or [UNITS1, UNITS1]}
+def pty_case(op, sp, cfg=None, recipes=None, cache=None, calls=None):
+    c = {"kind": "pty", "op": op, "cfg": dict(CFG0, **(cfg or {})), "cache": cache or [0, 0, 0, 0], "sp": sp,
+         "recipes": recipes or [UNITS1, UNITS1]}
+    if calls is not None:
+        c["calls"] = calls
+    return c
 
 
-def fast_case(op, sp, cfg=None, cache=None):
+def fast_case(op, sp, cfg=None, cache=None, calls=None):
     pr = printed(sp)
-    return {"kind": "fast", "op": op, "cfg": dict(CFG0, **(cfg or {})), "cache": cache or [0, 0, 0, 0], "sp": sp,
-            "resp1": list(exp_resp1(op, pr)), "resp2": list(exp_resp2(pr))}
+    c = {"kind": "fast", "op": op, "cfg": dict(CFG0, **(cfg or {})), "cache": cache or [0, 0, 0, 0], "sp": sp,
+         "resp1": list(exp_resp1(op, pr)), "resp2": list(exp_resp2(pr))}
+    if op == "session":
+        c.update(resp1=list(exp_resp1("fgbg", pr)), resp2=list(exp_resp1("namever", pr)), calls=calls)
+    return c
 
 
 def corpus():
@@ -459,8 +526,15 @@ def corpus():
         pty_case("auto", dict(kons, kitty=None)), pty_case("auto", full_sp(b"WezTerm", b"20230408")),
         pty_case("auto", full_sp(b"XTerm", b"370")), pty_case("auto", silent),
         pty_case("auto", full_sp(), cfg={"enabled": False, "env_name": "iTerm2"}),
+        # one cache epoch, several argument forms (the memo key includes keyword VALUES)
+        pty_case("session", full_sp(), calls=[["fg", False], ["fg", True]]),
+        pty_case("session", full_sp(), calls=[["fg", True], ["fg", False], ["fg", None], ["fg", True], ["nv"], ["nv"]]),
+        pty_case("session", f7, calls=[["fg", None], ["fg", True], ["fg", False], ["fg", True]], recipes=[WHOLE, WHOLE]),
+        pty_case("session", dict(full_sp(), fg=None), calls=[["nv"], ["fg", True], ["nv"], ["fg", False], ["fg", True]]),
+        pty_case("session", silent, calls=[["fg", True], ["fg", False]], cfg={"env_name": "WezTerm"}),
+        pty_case("session", full_sp(), calls=[["fg", False], ["nv"], ["fg", True]], cfg={"enabled": False}),
     ]
-    fast = [fast_case(c["op"], c["sp"], c["cfg"], c["cache"]) for c in pty]
+    fast = [fast_case(c["op"], c["sp"], c["cfg"], c["cache"], c.get("calls")) for c in pty]
     fast += [fast_case("kitty", full_sp(b"kitty", v)) for v in (b"0.20.0", b"0.19.99", b"0.20", b"1", b"0.20.x")]
     fast += [fast_case("iterm2", full_sp(b"konsole", v)) for v in (b"22.04.0", b"22.3.99", b"22.4", b"22", b"23", b"22.04.a")]
     fast += [fast_case("iterm2", dict(silent), cfg={"env_name": "konsole"})]  # version None -> AttributeError
@@ -498,8 +572,11 @@ def impl_common(c, T):
         env["TERM_PROGRAM"] = cfg["env_name"]
     if cfg["env_version"] is not None:
         env["TERM_PROGRAM_VERSION"] = cfg["env_version"]
-    return {"op": c["op"], "timeout": T, "enabled": cfg["enabled"], "swap": cfg["swap"], "env": env,
-            "cache": c["cache"], "winsize": [cfg["rows"], cfg["cols"], cfg["xpix"], cfg["ypix"]]}
+    d = {"op": c["op"], "timeout": T, "enabled": cfg["enabled"], "swap": cfg["swap"], "env": env,
+         "cache": c["cache"], "winsize": [cfg["rows"], cfg["cols"], cfg["xpix"], cfg["ypix"]]}
+    if c["op"] == "session":
+        d["calls"] = c["calls"]
+    return d
 
 
 def impl_pty(c, T):
@@ -513,8 +590,9 @@ def impl_pty(c, T):
 
 def impl_fast(c):
     d = impl_common(c, 0.1)
-    first = {"fgbg": REQ_FGBG, "cellsize": REQ_CELL}.get(c["op"], REQ_XTV)
-    d["responses"] = [[list(first), c["resp1"]], [list(REQ_KITTY), c["resp2"]]]
+    first = {"fgbg": REQ_FGBG, "cellsize": REQ_CELL, "session": REQ_FGBG}.get(c["op"], REQ_XTV)
+    second = REQ_XTV if c["op"] == "session" else REQ_KITTY
+    d["responses"] = [[list(first), c["resp1"]], [list(second), c["resp2"]]]
     return d
 
 
@@ -576,21 +654,22 @@ def nto_bounds(rec):
 def pcase_term(c, rec):
     res = rec["result"]
     op = c["op"]
-    opk = OPK[op] if op != "raw" else ("OpRawCsi" if c["more"] == "csi" else "OpRawC")
+    opk = opk_term(c)
     rounds = core.coq_list(rec["rounds"], lambda r: "(%s, %s)" % (
         bl(r["request"]), core.coq_list(r["bursts"], lambda x: "(%d%%nat, %s)" % (x[0], bl(x[1])))))
     nmin, nmax = nto_bounds(rec)
     return ("{| pc_op := %s; pc_cfg := %s; pc_cache := %s; pc_profile := %s; pc_raw_request := %s; pc_rounds := %s; "
             "pc_obs := %s; pc_left := %s; pc_nto_min := %d; pc_nto_max := %d |}" % (
                 opk, cfg_term(c["cfg"]), cache_term(c["cache"]), profile_term(c["sp"]),
-                bl(c.get("request", [])), rounds, obs_term(op, res), bl(rec["leftover"]), nmin, nmax))
+                bl(c.get("request", [])), rounds, obs_term(op, res, c.get("calls")), bl(rec["leftover"]), nmin, nmax))
 
 
 def fcase_term(c, res):
     return ("{| fc_op := %s; fc_cfg := %s; fc_cache := %s; fc_profile := %s; fc_resp1 := (Some %s); fc_resp2 := (Some %s); "
             "fc_obs := %s; fc_requests := %s; fc_drains := %d%%nat |}" % (
-                OPK[c["op"]], cfg_term(c["cfg"]), cache_term(c["cache"]), profile_term(c["sp"]), bl(c["resp1"]),
-                bl(c["resp2"]), obs_term(c["op"], res), core.coq_list(res["requests"], bl), res["drains"]))
+                opk_term(c), cfg_term(c["cfg"]), cache_term(c["cache"]), profile_term(c["sp"]), bl(c["resp1"]),
+                bl(c["resp2"]), obs_term(c["op"], res, c.get("calls")), core.coq_list(res["requests"], bl),
+                res["drains"]))
 
 
 def xcase_term(c, res):
@@ -681,8 +760,12 @@ def shrink_candidates(c):
     for k, v in (("swap", False), ("termux", False), ("env_name", None), ("env_version", None)):
         if c["cfg"][k] != v:
             out.append(dict(c, cfg=dict(c["cfg"], **{k: v})))
+    if c["op"] == "session":
+        for k in range(len(c["calls"])):
+            if len(c["calls"]) > 1:
+                out.insert(0, dict(c, calls=c["calls"][:k] + c["calls"][k + 1:]))
     if c["kind"] == "fast":  # keep the canned responses in step with the profile
-        out = [fast_case(x["op"], x["sp"], x["cfg"], x["cache"]) for x in out]
+        out = [fast_case(x["op"], x["sp"], x["cfg"], x["cache"], x.get("calls")) for x in out]
     return out
 
 
@@ -690,7 +773,7 @@ def shrink(c):
     if c["kind"] not in ("pty", "fast") or c.get("op") == "raw":
         return c
     cur = c
-    for _ in range(6):
+    for _ in range(10):
         cands = shrink_candidates(cur)
         if not cands:
             break
@@ -726,6 +809,10 @@ def describe(c):
             txt(c["request"]), c["more"], [txt(u) for u in c["stream_units"]], c["recipes"])
     pr = printed(c["sp"])
     prof = " ".join("%s=%s" % (k, "-" if pr[k] is None else txt(pr[k])) for k in SLOTS)
+    if c["op"] == "session":
+        head += " one cache epoch: " + ", ".join(
+            "get_terminal_name_version()" if k[0] == "nv" else
+            "get_fg_bg_colors(%s)" % ("" if k[1] is None else "hex=%s" % bool(k[1])) for k in c["calls"]) + ";"
     if c["kind"] == "fast":
         return head + " terminal{" + prof + "} response=%r / %r" % (txt(c["resp1"]), txt(c["resp2"]))
     return head + " terminal{" + prof + "} schedule=%s" % c["recipes"]
@@ -733,7 +820,7 @@ def describe(c):
 
 def sig_of(c):
     keep = {k: c[k] for k in ("kind", "op", "cfg", "cache", "sp", "recipes", "spec", "more", "request",
-                              "stream_units", "resp1", "resp2") if k in c}
+                              "stream_units", "resp1", "resp2", "calls") if k in c}
     return core.sig(keep)
 
 
@@ -748,7 +835,17 @@ def what_of(c, v, rec):
     obs = ""
     if rec is not None:
         r = rec.get("result", rec)
-        obs = " -- observed %s" % ({k: r[k] for k in ("ok", "exc", "cache") if k in r})
+        if c.get("op") == "session" and isinstance(r.get("ok"), list):
+            def pretty(call, x):
+                if "exc" in x:
+                    return x["exc"]
+                if call[0] == "nv":
+                    return tuple(None if v is None else txt(v) for v in x["ok"])
+                return tuple(None if v is None else bytes(v[1:]).decode() if v[0] == "hex" else tuple(v[1:])
+                             for v in x["ok"])
+            obs = " -- observed, call by call: %s" % [pretty(k, x) for k, x in zip(c["calls"], r["ok"])]
+        else:
+            obs = " -- observed %s" % ({k: r[k] for k in ("ok", "exc", "cache") if k in r})
         if "leftover" in rec:
             obs += ", left unread %r, elapsed %.3f s (timeout %.2f s)" % (txt(rec["leftover"]), rec["elapsed"], rec["timeout"])
     return "; ".join(parts) + ": " + describe(c) + obs
